@@ -46,6 +46,8 @@ structure Item where
   modeEnd : Bool         -- macroMode == MODE_END
   egroup : Bool          -- isinstance(item, (egroup, endgroup))
   isItem : Bool          -- isinstance(item, List.item)
+  cont : Nat := 0        -- `getattr(item, 'container', None)`: 0 = None, otherwise the id of the container class (List for \item)
+  isa : List Nat := []   -- ids of the container classes this element is an instance of (`isinstance(self, container)`)
   ws : Bool              -- text: `not self.strip()`
   dynws : Bool           -- class `par`: isElementContentWhitespace == not hasChildNodes()
   setctr : Bool          -- nodeName == 'setcounter'
@@ -178,6 +180,8 @@ def pre : LK → Tree → Tree → Pre
     if x.it.level == parLevel then .raw
     else if x.it.level < t.it.level then .push
     else if x.it.elem && x.it.modeEnd && x.it.ty == t.it.ty then .drop
+    -- an element that only lives in one kind of container (`\item` in a list) ends every other environment
+    else if x.it.elem && x.it.cont != 0 && !(t.it.isa.contains x.it.cont) then .push
     else .go
   | .sec, t, x => if x.it.level ≤ t.it.level then .push else .go
   | .bg, t, x =>
